@@ -30,13 +30,35 @@ func yamlMarshalStream(vs []any) ([]byte, error) {
 			continue
 		}
 
-		err := enc.Encode(v)
+		// yaml.v3 writes the string "<<" unquoted, which reads back as a
+		// merge key (or not at all). Build the node tree and quote it.
+		node := &yaml.Node{}
+
+		err := node.Encode(v)
+		if err != nil {
+			return nil, err
+		}
+
+		yamlQuoteMergeStrings(node)
+
+		err = enc.Encode(node)
 		if err != nil {
 			return nil, err
 		}
 	}
 
 	return buf.Bytes(), nil
+}
+
+func yamlQuoteMergeStrings(node *yaml.Node) {
+	if node.Kind == yaml.ScalarNode && node.Value == "<<" {
+		node.Tag = "!!str"
+		node.Style = yaml.DoubleQuotedStyle
+	}
+
+	for _, child := range node.Content {
+		yamlQuoteMergeStrings(child)
+	}
 }
 
 var yamlRE = regexp.MustCompile(`(?m)^---$`)
@@ -98,7 +120,7 @@ func yamlTranslateNode(node *yaml.Node, depth int) (any, error) {
 
 		// First see if there's a merge statement, and merge the referenced map(s) into ret.
 		for i := 0; i+1 < len(node.Content); i += 2 {
-			if node.Content[i].Value == "<<" {
+			if yamlIsMergeKey(node.Content[i]) {
 				v2, err := yamlTranslateNode(node.Content[i+1], depth)
 				if err != nil {
 					return nil, err
@@ -113,7 +135,7 @@ func yamlTranslateNode(node *yaml.Node, depth int) (any, error) {
 
 		// Next iterate over all the local values of the map.
 		for i := 0; i+1 < len(node.Content); i += 2 {
-			if node.Content[i].Value == "<<" {
+			if yamlIsMergeKey(node.Content[i]) {
 				continue
 			}
 
@@ -162,6 +184,11 @@ func yamlTranslateNode(node *yaml.Node, depth int) (any, error) {
 	default:
 		return nil, fmt.Errorf("unknown yaml type: %d (%w)", node.Kind, ErrInvalidType)
 	}
+}
+
+// A plain << key merges; a quoted "<<" is an ordinary key.
+func yamlIsMergeKey(node *yaml.Node) bool {
+	return node.Value == "<<" && node.Style&(yaml.DoubleQuotedStyle|yaml.SingleQuotedStyle) == 0
 }
 
 // Merge mapping or list of mappings into a destination mapping, as per https://yaml.org/type/merge.html
